@@ -647,6 +647,7 @@ func (g *Gen) enterLoop(li *loopInfo, b *ssa.BasicBlock) {
 		g.assume(g.curReach, g.evalBool(c.Expr, env))
 	}
 	g.startHeap[b] = g.heap.clone()
+	g.cover(tag)
 }
 
 type autoRange struct {
@@ -1460,8 +1461,21 @@ func (g *Gen) next(x *ssa.Next) Val {
 
 // ---------- return / postconditions ----------
 
+// cover: vacuity guard. The facts assumed so far (preconditions, callee postconditions, loop invariants, axioms)
+// must not contradict each other on the way to this point: the query "point reached" must not be unsat.
+func (g *Gen) cover(name string) {
+	ob := &Oblig{Unit: g.unit, Name: "cover:" + name, Kind: "cover", Guard: g.curReach, Goal: "false", ExpectSat: true,
+		Contractual: false, Desc: "this point is reachable under all assumptions made so far (vacuity guard)"}
+	if g.fc != nil {
+		ob.Props = g.fc.Props
+	}
+	ob.evIndex = len(g.events)
+	g.events = append(g.events, Event{K: evOblig, Ob: ob})
+}
+
 func (g *Gen) doReturn(x *ssa.Return) {
 	g.retCount++
+	g.cover(fmt.Sprintf("ret%d", g.retOrdinal(x)))
 	var results []Val
 	sig := g.fn.Signature
 	for i, r := range x.Results {
